@@ -15,6 +15,9 @@
 //!   uni   <x|u|U> <s|b> <hex text>   literal "\x<text>" / "\u<text>" / "\U<text>"
 //!   name  <hex text>             literal "\N<text>"    (text has no quote/backslash/newline)
 //!   fnest <hex body>             literal f"<body>"     (body over `{ } : x`)
+//!   fscan <hex src>              a source made of adjacent string literals (full f-string alphabet)
+//!   errraw <m|i|e> <start> <hex src>     raw material for the `errconv` requests (see below)
+//!   errconv <m|i|e> <start> <hex src> [v=.. t=.. x=..]   the public ParseError of parse_starts_at
 //! answers
 //!   total/rep: `len=<bytes> lex=<ok|err@OFF|panic|runaway> n=<tokens before the first error>
 //!               parse=<ok|err@OFF|panic>`
@@ -22,12 +25,21 @@
 //!              stages and CPU time of both; never compared, never judged except by the generous
 //!              ladder threshold, which looks at CPU time only)
 //!   oct/uni/name/fnest: `ok <code points, comma separated>` | `err@OFF` | `panic`
-//!              (for fnest: `ok` | `err@OFF` | `panic`)
+//!              (for fnest/fscan: `ok` | `err@OFF` | `panic`)
+//!   errraw   : `t=<l:Name:r;…|-> x=<Kind@loc|-> p=<kindtag>@<off>|ok` — the `Ok` items of the lexer's stream
+//!              in front of its first `Err` (start, variant name, end), that `Err`, and the error of
+//!              `parse_tokens(lex_starts_at(..))`, i.e. BEFORE the `not_before` clamp of `parse_starts_at`.
+//!              tools/props/c03.py reconstructs the `lalrpop_util::ParseError` variant from these.
+//!   errconv  : `<kindtag>@<off> indent=<0|1> reports=ok` for the error of `parse_starts_at` (after the clamp);
+//!              kindtag = `Eof` | `ExtraToken:<Tok>` | `InvalidToken` | `UnrecognizedToken:<Tok>:<expected|->` |
+//!              `Lexical:<Kind>`; `indent` = `ParseErrorType::is_indentation_error()`.  The `v= t= x=` arguments are
+//!              for the Lean driver, which recomputes the same line from the reconstructed variant with
+//!              `PV.C03.ErrConv` (and evaluates `reports` on the token stream, which the harness asserts).
 use pvh::*;
 use rustpython_parser::ast::{self, Constant, Expr};
 use rustpython_parser::lexer::lex_starts_at;
 use rustpython_parser::text_size::TextSize;
-use rustpython_parser::{parse_starts_at, Mode, Parse};
+use rustpython_parser::{parse_starts_at, parse_tokens, Mode, Parse, ParseError, ParseErrorType};
 use std::sync::atomic::{AtomicU64, Ordering};
 use std::time::Instant;
 
@@ -126,6 +138,81 @@ fn fnest(body: &str) -> String {
     r.unwrap_or_else(|| "panic".to_string())
 }
 
+fn fscan(src: &str) -> String {
+    let r = guard(|| match ast::Expr::parse(src, "<c03>") {
+        Ok(_) => "ok".to_string(),
+        Err(e) => format!("err@{}", u32::from(e.offset)),
+    });
+    r.unwrap_or_else(|| "panic".to_string())
+}
+
+/// Rust variant name of a token / error kind: the `Debug` text up to the first non-alphanumeric character
+fn variant_name<T: std::fmt::Debug>(t: &T) -> String {
+    format!("{:?}", t).chars().take_while(|c| c.is_ascii_alphanumeric()).collect()
+}
+
+fn kindtag(e: &ParseError) -> String {
+    let k = match &e.error {
+        ParseErrorType::Eof => "Eof".to_string(),
+        ParseErrorType::ExtraToken(t) => format!("ExtraToken:{}", variant_name(t)),
+        ParseErrorType::InvalidToken => "InvalidToken".to_string(),
+        ParseErrorType::UnrecognizedToken(t, exp) => format!(
+            "UnrecognizedToken:{}:{}",
+            variant_name(t),
+            match exp {
+                Some(x) => x.chars().filter(|c| c.is_ascii_alphanumeric()).collect::<String>(),
+                None => "-".to_string(),
+            }
+        ),
+        ParseErrorType::Lexical(l) => format!("Lexical:{}", variant_name(l)),
+    };
+    format!("{}@{}", k, u32::from(e.offset))
+}
+
+fn errraw(src: &str, mode: Mode, start: u32) -> String {
+    let r = guard(|| {
+        let mut toks: Vec<String> = Vec::new();
+        let mut lexerr = "-".to_string();
+        for item in lex_starts_at(src, mode, TextSize::from(start)) {
+            match item {
+                Ok((t, range)) => toks.push(format!(
+                    "{}:{}:{}",
+                    u32::from(range.start()),
+                    variant_name(&t),
+                    u32::from(range.end())
+                )),
+                Err(e) => {
+                    lexerr = format!("{}@{}", variant_name(&e.error), u32::from(e.location));
+                    break;
+                }
+            }
+        }
+        let p = match parse_tokens(lex_starts_at(src, mode, TextSize::from(start)), mode, "<c03>") {
+            Ok(_) => "ok".to_string(),
+            Err(e) => kindtag(&e),
+        };
+        format!(
+            "t={} x={} p={}",
+            if toks.is_empty() { "-".to_string() } else { toks.join(";") },
+            lexerr,
+            p
+        )
+    });
+    r.unwrap_or_else(|| "panic".to_string())
+}
+
+fn errconv(src: &str, mode: Mode, start: u32) -> String {
+    let r = guard(|| match parse_starts_at(src, mode, "<c03>", TextSize::from(start)) {
+        Ok(_) => "ok".to_string(),
+        Err(e) => format!(
+            "{} indent={} reports=ok",
+            kindtag(&e),
+            if e.error.is_indentation_error() { 1 } else { 0 }
+        ),
+    });
+    r.unwrap_or_else(|| "panic".to_string())
+}
+
 fn build(prefix: &str, unit: &str, n: usize, suffix: &str) -> String {
     let mut s = String::with_capacity(prefix.len() + unit.len() * n + suffix.len());
     s.push_str(prefix);
@@ -177,6 +264,18 @@ fn handle(ws: &[&str]) -> String {
         ["fnest", body] => match unhex_str(body) {
             Some(t) => fnest(&t),
             None => bad(),
+        },
+        ["fscan", src] => match unhex_str(src) {
+            Some(t) => fscan(&t),
+            None => bad(),
+        },
+        ["errraw", m, start, src] => match (mode_of(m), start.parse::<u32>(), unhex_str(src)) {
+            (Some(m), Ok(k), Some(s)) => errraw(&s, m, k),
+            _ => bad(),
+        },
+        ["errconv", m, start, src, ..] => match (mode_of(m), start.parse::<u32>(), unhex_str(src)) {
+            (Some(m), Ok(k), Some(s)) => errconv(&s, m, k),
+            _ => bad(),
         },
         _ => bad(),
     }
